@@ -148,7 +148,10 @@ def report(prop, tier, seed, results, extra, kf_entries, a, t0):
             if kinds is not None and ob["kind"] not in kinds:
                 continue
             n_here += 1
-            obligations += 1
+            if ob["status"] != "known-finding":
+                # an obligation filed as a whole under a recorded finding is reported separately (known_finding_obligations):
+                # it is neither claimed nor counted as an obligation of the proof
+                obligations += 1
             solver_s += ob["secs"]
             for k in ob.get("kf", []):
                 kf_hit.setdefault(k, []).append(ob["name"])
